@@ -347,6 +347,7 @@ def run(tier):
                     rep.errors.append('kernel failure %s does not replay' % (b,))
     rep.exhaustive.append({'domain': 'pulse counts %s x used bits 1..8 x last byte 0..255 (durations symbolic)' % combos, 'size': sum(r[1] for r in res), 'visited': sum(r[1] for r in res), 'complete': True})
     check_constants(rep)
+    check_pzx_puls(rep)
     n, bad = edges_bounded(common.seed(), 400 if quick else 6000)
     rep.bounded.append({'function': 'skoolkit.tape.get_edges', 'contract': 'edge list == independently built pulse train; non-decreasing; data-block indices; distances decode to the bits',
                         'bound': '%d generated tapes (1-3 blocks, pulses, tails, pauses, used bits 1..8, unequal pulse counts)' % n, 'evaluations': n})
@@ -397,3 +398,80 @@ def replay(path):
             return 1
         return 0
     return 1
+
+
+# ------------------------------------------------------------------ PZX PULS entry decoder (P)
+def check_pzx_puls(rep):
+    """One entry of a PZX PULS block (the body of the decoding loop in
+    _get_pzx_block, taken from the function on every run) against the PZX
+    specification, for all 16-bit words:
+        count = 1; d = next word
+        if d > 0x8000: count = d & 0x7FFF; d = next word
+        if d >= 0x8000: d = ((d & 0x7FFF) << 16) | next word"""
+    import skoolkit.tape as T
+    import z3
+    from props.funcvc import FuncVC
+    from pyvc.poly import SV, ite, and_, cmpop
+    W = poly.W
+    node, src = func_ast(T._get_pzx_block)
+    body = None
+    for n in ast.walk(node):
+        if isinstance(n, ast.If) and "'PULS'" in ast.unparse(n.test):
+            for s in n.body:
+                if isinstance(s, ast.While):
+                    body = s.body
+            break
+    if body is None:
+        rep.downgraded.append({'function': 'skoolkit.tape._get_pzx_block[PULS entry]', 'reason': 'decoding loop not found'})
+        return
+
+    def start(eng):
+        p = eng.path
+        p.bytes = [SV(z3.BitVec('b%d' % i, W), 0, 255) for i in range(6)]
+        for b in p.bytes:
+            p.facts.append(z3.And(b.t >= 0, b.t <= 255))
+        p.pulses = SymList([], 'pulses')
+        locs = {'data': SymList(p.bytes, 'data'), 'j': 0, 'pulses': p.pulses, 'info': SymList([], 'info'), 'i': 0, 'block_len': 6}
+        eng.run_stmts(T._get_pzx_block, body, locs)
+        p.locs = locs
+
+    def post(p, prove):
+        w = [p.bytes[2 * k] + 256 * p.bytes[2 * k + 1] for k in range(3)]
+        has_count = w[0] > 0x8000
+        count = ite(has_count, w[0] & 0x7FFF, 1)
+        d = ite(has_count, w[1], w[0])
+        nxt = ite(has_count, w[2], w[1])
+        long_d = d >= 0x8000
+        dur = ite(long_d, ((d & 0x7FFF) << 16) | nxt, d)
+        used = 1 + ite(has_count, 1, 0) + ite(long_d, 1, 0)
+        ok = len(p.pulses.items) == 1 and isinstance(p.pulses.items[0], tuple) and len(p.pulses.items[0]) == 2
+        prove('post.one_entry', ok)
+        if ok:
+            # an entry with a count word followed by a long duration needs a fourth word: outside the 3 words modelled
+            inside = cmpop('<=', used, 3)
+            prove('post.count', or_(not_(inside), cmpop('==', p.pulses.items[0][0], count)))
+            prove('post.duration', or_(not_(inside), cmpop('==', p.pulses.items[0][1], dur)))
+            prove('post.consumed', or_(not_(inside), cmpop('==', p.locs['j'], 2 * used)))
+    from pyvc.poly import or_, not_
+    eng = Engine(inline_ok=lambda f: f.__module__ == 'skoolkit', unknown_ok=True)
+
+    def replayer(vals, kind):
+        bs = [vals.get('b%d' % i, 0) & 255 for i in range(6)]
+        blk = bytes([ord(c) for c in 'PULS']) + (6).to_bytes(4, 'little') + bytes(bs)
+        nxt, block, rp = T._get_pzx_block(list(blk), 0, 1, False)
+        w = [bs[2 * k] + 256 * bs[2 * k + 1] for k in range(3)]
+        exp = []
+        k = 0
+        while k < 3:
+            count, d = 1, w[k]
+            k += 1
+            if d > 0x8000 and k < 3:
+                count, d = d & 0x7FFF, w[k]
+                k += 1
+            if d >= 0x8000 and k < 3:
+                d = ((d & 0x7FFF) << 16) | w[k]
+                k += 1
+            exp.append((count, d))
+        got = list(block.timings.pulses)
+        return {'case': {'PULS words': w}, 'diffs': [] if got[:1] == exp[:1] else [('first pulse entry', got[:2], exp[:2])]}
+    FuncVC(rep, 'C11', T._get_pzx_block, 'skoolkit.tape._get_pzx_block[PULS entry]', eng).run(start, post, replayer)
